@@ -51,6 +51,7 @@ type Interp struct {
 	Tests    int
 	Failed   int
 	FailFast bool
+	fmtDepth int
 	// Calls counts user function calls and loop iterations (for yield-density checks).
 	Calls, Iterations int
 }
@@ -973,6 +974,11 @@ func Same(want, got Value) bool {
 }
 
 func (in *Interp) noNonFinite(v Value) {
+	in.fmtDepth++
+	defer func() { in.fmtDepth-- }()
+	if in.fmtDepth > 64 {
+		in.unspecified("cyclic or very deep value")
+	}
 	switch v := v.(type) {
 	case float64:
 		finite(in, v, "formatting")
